@@ -1,5 +1,5 @@
 (* Dispatch.v — one entry point for the extracted binary and for vm_compute: request tree -> reply tree. *)
-From DV Require Export Model.Tree Model.Reader Model.Iflr.
+From DV Require Export Model.Tree Model.Reader Model.Iflr Model.EflrReader.
 
 Definition t_lrec (r : lrec) : tree := TL [t_bool (lr_eflr r); TI (lr_type r); TB (lr_body r)].
 Definition as_lrec (t : tree) : option lrec :=
@@ -73,6 +73,95 @@ Definition as_descr (t : tree) : option (Z * nat) :=
 Definition as_payload (t : tree) : option payload :=
   match t with TL [TI 0; TB b] => Some (PBytes b) | TL [TI 1; TB s] => Some (PText s) | _ => None end.
 
+
+(* ---- EFLR state from / to trees ---- *)
+Definition as_dtime (t : tree) : option dtime :=
+  match t with
+  | TL [TI y; TI mo; TI d; TI h; TI mi; TI s; TI us] =>
+      Some {| dt_year := y; dt_month := mo; dt_day := d; dt_hour := h; dt_min := mi; dt_sec := s; dt_us := us |}
+  | _ => None
+  end.
+Definition as_aval (t : tree) : option aval :=
+  match t with
+  | TL [TI 0; TI z] => Some (VInt z)
+  | TL [TI 1; b] => match as_bool b with Some b' => Some (VBool b') | None => None end
+  | TL [TI 2; TI bits] => Some (VFloat bits)
+  | TL [TI 3; TB s] => Some (VStr s)
+  | TL [TI 4; d] => match as_dtime d with Some d' => Some (VDT d') | None => None end
+  | TL [TI 5; TB ty; o] => match as_obname o with Some o' => Some (VRef ty o') | None => None end
+  | TL [TI 6] => Some VOther
+  | _ => None
+  end.
+Fixpoint as_nval (t : tree) : option nval :=
+  match t with
+  | TL [TI 0; v] => match as_aval v with Some v' => Some (NLeaf v') | None => None end
+  | TL [TI 1; TL l] =>
+      match (fix go (l : list tree) : option (list nval) :=
+               match l with
+               | [] => Some []
+               | x :: r => match as_nval x, go r with Some y, Some ys => Some (y :: ys) | _, _ => None end
+               end) l with
+      | Some l' => Some (NNode l')
+      | None => None
+      end
+  | _ => None
+  end.
+Definition as_pval (t : tree) : option pval :=
+  match t with
+  | TL [] => Some PNone
+  | TL [TI 0; v] => match as_aval v with Some v' => Some (PScalar v') | None => None end
+  | TL [TI 1; TL l] => match map_opt as_nval l with Some l' => Some (PList l') | None => None end
+  | _ => None
+  end.
+Definition as_opttext (t : tree) : option (option (list Z)) :=
+  match t with TL [] => Some None | TB s => Some (Some s) | _ => None end.
+Definition as_attr (t : tree) : option attr :=
+  match t with
+  | TL [TB label; mv; md; rc0; TL valid; rt; units; v] =>
+      match as_bool mv, as_bool md, as_optint rc0, map_opt as_int valid, as_bool rt, as_opttext units, as_pval v with
+      | Some mv', Some md', Some rc', Some valid', Some rt', Some u', Some v' =>
+          Some {| a_label := label; a_mv := mv'; a_md := md'; a_rc0 := rc'; a_valid := valid'; a_reftext := rt';
+                  a_units := u'; a_value := v' |}
+      | _, _, _, _, _, _, _ => None
+      end
+  | _ => None
+  end.
+Definition as_obj (t : tree) : option obj :=
+  match t with
+  | TL [o; TL az] => match as_obname o, map_opt as_attr az with
+                     | Some o', Some az' => Some {| o_name := o'; o_attrs := az' |}
+                     | _, _ => None
+                     end
+  | _ => None
+  end.
+Definition as_eset (t : tree) : option eset :=
+  match t with
+  | TL [TB ty; nm; TL os] => match as_opttext nm, map_opt as_obj os with
+                             | Some nm', Some os' => Some {| e_type := ty; e_name := nm'; e_objs := os' |}
+                             | _, _ => None
+                             end
+  | _ => None
+  end.
+
+Definition t_opttext (o : option (list Z)) : tree := match o with Some s => TB s | None => TL [] end.
+Definition t_dval (v : dval) : tree :=
+  match v with
+  | DInt z => TL [TI 0; TI z]
+  | DBits b => TL [TI 1; TI b]
+  | DText s => TL [TI 2; TB s]
+  | DDT d => TL [TI 3; TL [TI (dd_year d); TI (dd_tz d); TI (dd_month d); TI (dd_day d); TI (dd_hour d); TI (dd_min d); TI (dd_sec d); TI (dd_ms d)]]
+  | DName o => TL [TI 4; t_obname o]
+  | DRef t o => TL [TI 5; TB t; t_obname o]
+  end.
+Definition t_dattr (a : dattr) : tree :=
+  TL [TI (d_count a); TI (d_code a); t_opttext (d_units a);
+      match d_values a with Some vs => TL [TI 0; t_list t_dval vs] | None => TL [] end].
+Definition t_dset (d : dset) : tree :=
+  TL [TB (ds_type d); t_opttext (ds_name d);
+      t_list (fun t => TL [TB (t_label t); t_dattr (t_attr t)]) (ds_tmpl d);
+      t_list (fun o => TL [t_obname (do_name o); t_list (fun a => match a with Some a' => t_dattr a' | None => TL [] end) (do_attrs o)]) (ds_objs d);
+      t_bool (template_ok d)].
+
 Definition dispatch (t : tree) : tree :=
   match t with
   | TL [TI 1; TI code; v] => prim code v
@@ -129,5 +218,11 @@ Definition dispatch (t : tree) : tree :=
                          (write_buffered {| sul_seq := seq; sul_vrl := vrl; sul_id := ident |} rs cap disk0)
       | None => t_bad
       end
+  | TL [TI 20; e] => match as_eset e with Some e' => t_res TB (enc_set e') | None => t_bad end
+  | TL [TI 21; a] => match as_attr a with Some a' => t_res TB (enc_attr_obj a') | None => t_bad end
+  | TL [TI 22; a] => match as_attr a with Some a' => t_res TB (enc_attr_tmpl a') | None => t_bad end
+  | TL [TI 23; TB bs] => t_opt t_dset (dec_set bs)                       (* strict component reader *)
+  | TL [TI 24; o; TI seqnum; TB hid] =>
+      match as_obname o with Some o' => t_res TB (enc_fileheader o' seqnum hid) | None => t_bad end
   | _ => t_bad
   end.
